@@ -829,6 +829,9 @@ func rulesC07(cx *Ctx) []Obligation {
 		if f == nil || f.Blocks == nil || strings.Contains(f.Name(), "NoReduce") {
 			continue
 		}
+		if f.Object() != nil && !f.Object().Exported() {
+			continue // an unexported witness helper hands its outputs to the exported gadget that checks them
+		}
 		res := f.Signature.Results()
 		if res.Len() == 0 || !typeIs(res.At(0).Type(), "goldilocks.Variable") {
 			continue
@@ -1109,6 +1112,10 @@ func rulesC09Function(cx *Ctx) []Obligation {
 			n++
 		}
 		if strings.HasPrefix(o.Key, "C05/R1/ReduceWithMaxBits/") || strings.HasPrefix(o.Key, "C05/R1/MulAdd/") {
+			o.Key = "C09/O9.2/" + strings.TrimPrefix(o.Key, "C05/")
+			obs = append(obs, o)
+		} else if (strings.HasPrefix(o.Key, "C05/R1/") || strings.HasPrefix(o.Key, "C05/W1/")) && strings.Contains(o.Key, "poseidon.") {
+			// a hint used by the permutation's own package (none today): the same discipline applies
 			o.Key = "C09/O9.2/" + strings.TrimPrefix(o.Key, "C05/")
 			obs = append(obs, o)
 		}
